@@ -322,6 +322,16 @@ func (c *simConn) Close() error {
 	}
 	return nil
 }
+// peerClosed: the other end has closed the connection (independent of deadlines and of what is still buffered)
+func (c *simConn) peerClosed() bool {
+	select {
+	case <-c.in.closed:
+		return true
+	default:
+		return false
+	}
+}
+
 func (c *simConn) wasClosed() bool {
 	c.closedMu.Lock()
 	defer c.closedMu.Unlock()
